@@ -199,7 +199,7 @@ def _execute(case, col, model):
     path = Path(scratch()) / f"doc_{os.getpid()}.xml"
     path.write_bytes(data)
     pcfg = ParserConfig(fail_on_unknown_properties=True, fail_on_unknown_attributes=True, fail_on_converter_warnings=True)
-    prefixed_content = _has_prefixed_content(outs["lxml"])
+    prefixed_content = _has_prefixed_content(outs["lxml"]) or (case["decorate"] == "shadow" and _has_prefixed_content(doc))
     # a pre-parsed lxml tree that still holds comment / PI nodes inside character data loses the text behind them
     # (recorded finding): tree sources are built the way the handler itself reads serialized documents
     tree_parser = etree.XMLParser(recover=False, remove_comments=True, remove_pis=True) if not case.get("no_guards") else I.STRICT
